@@ -296,6 +296,14 @@ func (tr *Tracer) shouldInline(st *state, callee *ssa.Function) bool {
 		if depth <= 8 && tr.c.isNewHelper(callee) {
 			return true
 		}
+		// the wrapper of a method value (s.sendAll handed to a helper) whose method is itself new
+		if depth <= 8 && strings.HasPrefix(callee.Synthetic, "bound method wrapper") {
+			if m, isM := callee.Object().(*types.Func); isM {
+				if target := tr.c.Prog.FuncValue(m); target != nil && tr.c.isNewHelper(target) {
+					return true
+				}
+			}
+		}
 		// a function literal written inside a new helper, or handed to one by the function under analysis (the visit
 		// callback of an extracted walker), is part of that same logic
 		if depth <= 8 && callee.Parent() != nil {
